@@ -39,7 +39,7 @@ ASSUMPTIONS = [
 REQUIRED = ["mon.sync_vs_reference", "mon.async_vs_sync", "mon.log_invariants", "mon.cache_contents", "mon.exhaustive_scripts"]
 BUDGET = {"quick": 45.0, "thorough": 480.0}
 
-KINDS = ["answer", "nodata", "nxdomain", "servfail", "refused", "timeout", "malformed", "truncated", "yxdomain", "oserror", "eoferror", "notimp", "chain-too-long", "answer-for-nxdomain", "cname1", "cname3"]
+KINDS = ["answer", "nodata", "nxdomain", "servfail", "refused", "timeout", "malformed", "truncated", "yxdomain", "oserror", "eoferror", "notimp", "chain-too-long", "answer-for-nxdomain", "cname1", "cname3", "cname-nodata", "cname-nxdomain"]
 EXH_KINDS = ["answer", "nodata", "nxdomain", "servfail", "timeout", "malformed", "truncated", "refused"]
 MAX_CHAIN = 16
 
@@ -98,6 +98,21 @@ def build_response(request, kind, params):
             text = {dns.rdatatype.A: "10.1.2.3", dns.rdatatype.AAAA: "2001:db8::1", dns.rdatatype.TXT: '"x"', dns.rdatatype.MX: "10 mail.example."}.get(q.rdtype, "10.1.2.3")
             rr.add(dns.rdata.from_text(q.rdclass, q.rdtype, text), ttl)
         if kind == "answer-for-nxdomain":
+            r.set_rcode(dns.rcode.NXDOMAIN)
+    elif kind in ("cname-nodata", "cname-nxdomain"):
+        # an alias chain that leaves the queried name's zone and ends in "no data" / "no such name": the SOA that bounds the
+        # negative TTL is the one covering the END of the chain
+        name = q.name
+        cttls = params.get("cname_ttls", [120, 60, 240])
+        for i in range(params.get("links", 1)):
+            tgt = dns.name.from_text(f"c{i}.target.example.")
+            rr = r.find_rrset(r.answer, name, q.rdclass, dns.rdatatype.CNAME, create=True)
+            rr.add(dns.rdata.from_text(q.rdclass, "CNAME", tgt.to_text()), cttls[i % len(cttls)])
+            name = tgt
+        if params.get("soa", True):
+            rr = r.find_rrset(r.authority, dns.name.from_text("target.example."), q.rdclass, dns.rdatatype.SOA, create=True)
+            rr.add(dns.rdata.from_text(q.rdclass, "SOA", f"ns. h. 1 2 3 4 {params.get('minimum', 77)}"), params.get("soa_ttl", 500))
+        if kind == "cname-nxdomain":
             r.set_rcode(dns.rcode.NXDOMAIN)
     elif kind in ("nodata", "nxdomain"):
         if params.get("soa", True):
@@ -277,10 +292,17 @@ def reference(cfg, outcomes):
             if kind in ("chain-too-long", "answer-for-nxdomain"):
                 live.remove(srv)
                 continue
+            chain = []
+            if kind in ("cname-nodata", "cname-nxdomain"):
+                cttls = params.get("cname_ttls", [120, 60, 240])
+                chain = [cttls[i % len(cttls)] for i in range(params.get("links", 1))]
+                kind = kind[6:]
             if kind == "nodata":
                 minttl = 2**32 - 1  # no SOA to bound the negative TTL: the documented maximum TTL
                 if params.get("soa", True):
                     minttl = min(params.get("soa_ttl", 500), params.get("minimum", 77))
+                if chain:
+                    minttl = min(chain + ([minttl] if params.get("soa", True) else []))
                 if cfg["cache"]:
                     puts[(ct, "T")] = ("nodata", clock + minttl)
                 if cfg["raise_on_no_answer"]:
@@ -290,6 +312,8 @@ def reference(cfg, outcomes):
                 minttl = 2**32 - 1  # no SOA to bound the negative TTL: the documented maximum TTL
                 if params.get("soa", True):
                     minttl = min(params.get("soa_ttl", 500), params.get("minimum", 77))
+                if chain:
+                    minttl = min(chain + ([minttl] if params.get("soa", True) else []))
                 if cfg["cache"]:
                     puts[(ct, "ANY")] = ("nxdomain", clock + minttl)
                 nx.append(ct)
@@ -463,7 +487,7 @@ def gen_outcomes(rng):
     for _ in range(n):
         k = rng.choice(KINDS + ["timeout", "servfail", "nxdomain", "truncated"])
         p = {"ttl": rng.choice((0, 1, 300, 86400)), "soa_ttl": rng.choice((5, 500)), "minimum": rng.choice((3, 77, 9999)), "soa": rng.random() < 0.8, "rtt": rng.choice((0.0, 0.01, 0.2)),
-             "cname_ttls": [rng.choice((10, 120, 1000)) for _ in range(3)]}
+             "cname_ttls": [rng.choice((10, 120, 1000)) for _ in range(3)], "links": rng.choice((1, 1, 3))}
         out.append((k, p))
     return out
 
